@@ -138,6 +138,11 @@ struct Request {
     /// captured counters whose updates (`x += 1` inside a closure) are dropped: they do not influence the value
     #[serde(default)]
     ignore_assign: Vec<String>,
+    /// local_value: methods that modify a `let mut` the value depends on in place and are NOT translated (the value is
+    /// the one before them: `sort_by_key` makes the queue a permutation of it); any other in-place modification or
+    /// assignment of such a local is an error
+    #[serde(default)]
+    inplace: Vec<String>,
     /// loop_body: the mutable locals declared before the loop that the body updates: name -> Rust type
     #[serde(default)]
     state: Vec<(String, String)>,
